@@ -186,7 +186,7 @@ def campaign_gate(cx):
             cx.check(ok and n_edges >= 1, cx.site_key(c, "stepdown:converse"), "whenever a (pre)candidate finds a conf change in the newly committed range, it does step down", c)
 
 
-@obligation("CONF.promotable", ["C09", "C17"], floor=3, kind="who-may-write + guard",
+@obligation("CONF.promotable", ["C09", "C17", "C10"], floor=3, kind="who-may-write + guard",
             why="a non-voter must never start an election on its own, by timeout or on a transfer request")
 def promotable(cx):
     ws = [s for s in cx.prog.writes.get("RaftCore.promotable", []) if s.kind == "write"]
@@ -251,6 +251,9 @@ def apply_dispatch(cx):
             args = call_args(cx, c)
             ok = all(contains(("vfield", ANY, "core::ops::control_flow::ControlFlow::Continue", 0), x) for x in args[1:3])
             cx.check(ok, cx.site_key(c, "apply_conf"), "apply_conf receives exactly the Ok payload of the changer call (found %s)" % show(args[1])[:100], c)
+            if fn is ac:
+                nx = args[3]
+                cx.check(nx[0] == "call" and nx[1].endswith("RaftLog::last_index"), cx.site_key(c, "apply_conf:next"), "a newly added peer's replication starts at last_index() + 1: apply_conf(.., .., raft_log.last_index()) (found %s)" % show(nx)[:80], c)
     pc = [c for c in cx.prog.call_sites_of("Raft::post_conf_change") if c.fn is ac]
     apc = [c for c in cx.prog.call_sites_of("ProgressTracker::apply_conf") if c.fn is ac]
     ok = len(pc) == 1 and len(apc) == 1 and g.dominated_by_block(pc[0].at, lambda b: b == apc[0].block)
